@@ -325,6 +325,11 @@ func (c *Ctx) ruleR02c(rule string, withFlag bool) {
 				if ownParam(callee, "data", "IntMap") == nil {
 					continue
 				}
+				// a helper from which no parser can be called cannot re-enter the grammar with the context it is given
+				if !c.reachesParseCall(callee) && !isResultCacheMethod(callee, "Get") {
+					c.R.Exempt("context handed to "+c.name(callee), "no parser call is reachable from this helper: the context it receives is only stored or inspected")
+					continue
+				}
 				for i, a := range args {
 					if b, ok := a.Type().Underlying().(*types.Basic); ok && b.Kind() == types.Bool && i < len(callee.Params) {
 						flagArgs = append(flagArgs, a)
@@ -454,4 +459,33 @@ func (c *Ctx) curtailTest(fn *ssa.Function, cond ssa.Value, L, P *ssa.Parameter,
 		// a receiver field means the same thing in the helper only if the helper runs on the same receiver
 		return !strings.HasPrefix(strings.TrimPrefix(d, "conv:"), "recv.") || recvOK
 	})
+}
+
+// reachesParseCall: a call of a parser (Parser.Parse, a parser.Func value) is reachable from fn through library code.
+func (c *Ctx) reachesParseCall(fn *ssa.Function) bool {
+	seen := map[*ssa.Function]bool{}
+	var walk func(f *ssa.Function, d int) bool
+	walk = func(f *ssa.Function, d int) bool {
+		if seen[f] || d > 8 {
+			return false
+		}
+		seen[f] = true
+		for _, call := range ssax.Calls(f) {
+			if ssax.IsParseCall(call) {
+				return true
+			}
+			for _, g := range c.P.Callees(f, call) {
+				if c.P.InLib(g) && walk(g, d+1) {
+					return true
+				}
+			}
+		}
+		for _, an := range f.AnonFuncs {
+			if walk(an, d+1) {
+				return true
+			}
+		}
+		return false
+	}
+	return walk(fn, 0)
 }
